@@ -62,7 +62,8 @@ RECIPE = {
     "C17": {"all": ["any"], "st": ("any", "mic"), "cov": ("any", "mic"), "sim": ["any", "enc"]},
 }
 JOBS = int(os.environ.get("VERIF_JOBS", "6"))
-LENS = [1, 27, 5, 2, 13, 26, 3, 9, 20]
+# payload lengths: small ones plus the values around every bit boundary of the 8 bit length field
+LENS = [1, 27, 5, 32, 2, 13, 64, 26, 31, 3, 33, 9, 96, 20, 63, 65, 16, 128, 127, 8]
 INVS = "INVARIANTS TraceInv\n"
 
 
